@@ -44,6 +44,7 @@ TraceStep(e) ==
      /\ obs'.recT = e.recT /\ obs'.recN = e.recN /\ e.dataok
   \/ /\ e.call = "finalize"    /\ Finalize(e.obj) /\ Common(e)
   \/ /\ e.call = "drop"        /\ Drop(e.obj) /\ Common(e)
+  \/ /\ e.call = "caller_edits" /\ CallerEdits(e.obj) /\ Common(e) /\ Seen(e)
   \/ /\ e.call \notin {"setup", "finalize", "is_complete", "drop"} /\ Undefined(e.obj)   \* global sharing only
   \/ /\ undef /\ UNCHANGED vars                                               \* after undefined behaviour anything goes
 
